@@ -141,9 +141,6 @@ func PrepareQuery(ctx context.Context, typ Type, selectionSet *SelectionSet) err
 				if selection.SelectionSet != nil {
 					return NewClientError(`scalar field "__typename" must have no selection`)
 				}
-				for _, fragment := range selectionSet.Fragments {
-					fragment.SelectionSet.Selections = append(fragment.SelectionSet.Selections, selection)
-				}
 				continue
 			}
 			return NewClientError(`unknown field "%s"`, selection.Name)
